@@ -11,7 +11,7 @@ LEVEL = "exploration"
 RULE = (
     "cases = describing functions from the typed grammar biased so that about half of the calls / nested-DAG calls "
     "carry twz_active, the flag being a Python constant (True False 0 1 '' 'x' None), a DAG argument, a node result, "
-    "result[key] / chained keys / an unpacked element, or an and_/or_/not_/operator expression; flag values come from "
+    "result[key] / chained keys / an unpacked element (also two calls flagged by two different parts of one value), or an and_/or_/not_/operator expression; flag values (incl. Mask objects whose bool() and len() disagree) come from "
     "(programs may contain debug nodes, run with RUN_DEBUG_NODES on and off) a truthy/falsy pool (0 1 2 '' 'x' None True False () (0,) (1,2) {'a':0} {} [] [0]); each program is run with two "
     "argument tuples under two configurations. oracle: value == reference (deactivated call -> None, dependents get "
     "None, deactivated nested DAG -> all outputs None) and the multiset of node observations == reference (a "
@@ -24,7 +24,7 @@ ASSUMPTIONS = [
     "a nested DAG called with twz_active contains no flagged calls itself (documented RuntimeError) and does not index its own results",
 ]
 ATHERIS = True  # thorough tier: 4 of the 16 shards are coverage-guided (vlib/fuzzshard.py)
-BUDGET = {"quick": {"shards": 4, "seconds": 40}, "thorough": {"shards": 16, "seconds": 420}}
+BUDGET = {"quick": {"shards": 8, "seconds": 40}, "thorough": {"shards": 16, "seconds": 420}}
 
 
 def run_case(case: Dict[str, Any]) -> CaseResult:
